@@ -246,6 +246,73 @@ def check_r5_counters(facts, rep, bodies):
                         "bytes consumed here (`%s`) are not added to the direction's byte counter: the totals returned by the bridge "
                         "under-report what was transferred" % fmt(a)[:60])
     rep.floor(rid, "consume sites", k, 3)
+    # the count kept in the direction's state is the running total, the same variable that is returned
+    m = 0
+    for b in bodies:
+        tr = Tracer(facts, b)
+        stored = []
+        for bi, blk in enumerate(b.blocks):
+            if blk["cleanup"]:
+                continue
+            for st in blk["stmts"]:
+                if st["k"] != "Assign":
+                    continue
+                pr = st["lhs"].get("p") or []
+                fl = [e["f"] for e in pr if isinstance(e, dict) and "f" in e]
+                if not fl or fl[-1] not in ("read_state", "write_state"):
+                    continue
+                pass
+            for st in blk["stmts"]:
+                if st["k"] == "Assign" and st["rv"]["k"] == "Aggregate" and st["rv"]["agg"].get("adt", "").endswith(("::ReadState", "::WriteState")):
+                    for o in st["rv"]["ops"]:
+                        stored.append((bi, st, st["rv"]["agg"].get("variant"), o))
+        if not stored:
+            continue
+        m += 1
+        where = "%s (%s)" % (loc_str(b.loc), b.path)
+        # locals that carry the running total: bound from the previous state's payload, copies of such, or such + something
+        total = set()
+        changed = True
+
+        def opl(o):
+            return o["p"]["l"] if o.get("p") and not o["p"].get("p") else None
+        while changed:
+            changed = False
+            for blk2 in b.blocks:
+                for s2 in blk2["stmts"]:
+                    if s2["k"] != "Assign" or s2["lhs"].get("p"):
+                        continue
+                    L = s2["lhs"]["l"]
+                    if L in total:
+                        continue
+                    rv = s2["rv"]
+                    hit = False
+                    if rv["k"] == "Use":
+                        o = rv["ops"][0]
+                        if opl(o) in total:
+                            hit = True
+                        elif o.get("p") and o["p"].get("p"):
+                            pr2 = o["p"]["p"]
+                            if any(isinstance(e, dict) and "as" in e for e in pr2) and \
+                                    any(isinstance(e, dict) and e.get("f") in ("read_state", "write_state") for e in pr2):
+                                hit = True
+                    elif rv["k"] in ("BinaryOp", "CheckedBinaryOp") and str(rv.get("op", "")).startswith("Add"):
+                        if any(opl(o) in total for o in rv["ops"]):
+                            hit = True
+                    if hit:
+                        total.add(L)
+                        changed = True
+
+        def from_state(op):
+            return opl(op) in total
+        odd = [(var, st) for bi, st, var, node in stored if not from_state(node)]
+        if not odd:
+            rep.ok(rid, "%s/state-holds-total" % b.path, where, "%d state stores all carry a count derived from the previous state's count" % len(stored))
+        else:
+            rep.bad(rid, "%s/state-holds-total" % b.path, "%s (%s)" % (loc_str(odd[0][1]["loc"]), b.path),
+                    "the byte count stored with %s does not derive from the count held in the previous state (it is not the running total): the "
+                    "totals reported when the bridge completes later omit what was transferred before" % odd[0][0])
+    rep.floor(rid, "directions with counted state", m, 2)
 
 
 def check_r4(facts, rep, crate, bodies):
